@@ -518,7 +518,7 @@ class CouplingAnalysisPurePython:
             range(tau_max, self.total_time - tau_max))[:sample_range]
 
         # get the bin quantile steps
-        bin_edge = numpy.ceil(sample_range/float(bins))
+        bin_edge = numpy.ceil(sample_range/float(bins)).astype(int)
 
         symbolic_array = numpy.empty((2*tau_max + 1, self.N, sample_range),
                                      dtype=dtype)
